@@ -108,3 +108,39 @@ func constByte(v ssa.Value) bool {
 	}
 	return false
 }
+
+// marshalWalkers: the container marshallers (Array, Elements) never read the tape themselves: every look at the tape
+// goes through the walkers that know about deleted zones (AdvanceIter, PeekNextTag, a nested marshaller). A raw read
+// of the word after the current element sees the NOP filler of a deleted LAST element instead of the closing bracket:
+// a valid edited document can then not be marshalled (or gets a stray comma).
+func (e *Eng) marshalWalkers() {
+	props := []string{"C10", "C14"}
+	name := "marshal#tape-read-only-through-walkers"
+	for _, key := range []string{"(*Array).MarshalJSONBuffer", "(Elements).MarshalJSONBuffer"} {
+		fn := e.fn(key)
+		if fn == nil {
+			continue
+		}
+		var bad []string
+		walkers := 0
+		for _, b := range fn.Blocks {
+			for _, in := range b.Instrs {
+				if ia, ok := in.(*ssa.IndexAddr); ok && fieldNameOf(ia.X) == "Tape" {
+					bad = append(bad, e.pos(in)+": the tape is read directly (deleted zones are not skipped)")
+				}
+				if cc := callCommon(in); cc != nil {
+					n := calleeName(cc)
+					if strings.HasSuffix(n, ".PeekNextTag") || strings.HasSuffix(n, ".AdvanceIter") || strings.HasSuffix(n, ".MarshalJSONBuffer") {
+						walkers++
+					}
+				}
+			}
+		}
+		ok := len(bad) == 0 && walkers > 0
+		detail := fmt.Sprintf("no direct tape read; %d walker / nested marshaller calls", walkers)
+		if !ok {
+			detail = strings.Join(append(bad, fmt.Sprintf("%d walker calls", walkers)), "; ")
+		}
+		e.add(name, key, props, ok, detail)
+	}
+}
